@@ -125,6 +125,9 @@ def run_property(prop, spec, tier, seed=0, tus=None, quiet=False):
             # second parse, with the compiler-conditional regions as g++ sees them, of the TUs that instantiate code in such a region
             byname = {t['name']: t for t in tus}
             variants = [corpus_mod.gcc_variant(byname[r['tu']], overlay) for r in results if r.get('cond') and overlay]
+            if tier != 'thorough':
+                # quick tier: the witnesses and two test TUs are enough to see both forms of every compiler-conditional function
+                variants = [v for v in variants if v['name'].startswith('G/W/') or os.path.basename(v['path']) in corpus_mod.QUICK_G]
             for r in ex.map(_run_tu, [(tu, per_tu_rules) for tu in variants]):
                 results.append(r)
     broken = [r for r in results if r.get('err')]
